@@ -1,5 +1,89 @@
-import Secp.Hand.History
-/-! # C03 — placeholder: theorems are being added in this session -/
+import Secp.Proofs.DecodeRT
+/-!
+# C03 — element decoders accept exactly the canonical encodings of curve points
+
+Model of the code: `Hand.ElementL.{decode,decodeCompressed,decodeUncompressed,decodeCoordinates,decodeHex}` — the
+length switch, prefix checks, receiver written only on success (hand-written glue, tied by the families `DEC.*`) — over
+the *generated* `Reduce`, `ToMontgomery`, `Secp256Polynomial`, `SqrtRatio` (with the generated addition chain
+`x^((p-3)/4)`), `Equals`, `Sgn0`/`FromMontgomery`, `CMove`. Specification: `Spec.decode` (written from the property
+text) on byte strings; `affPt` is the abstract affine point of a projective triple; `PtValid` = a valid group element.
+Byte strings are lists of naturals below 256 (`IsBytes`). A model function is total: "never panics" concerns the Go
+slicing and array conversions, which the length switch guards and the correspondence exercises on all lengths 0..70.
+-/
 namespace C03
-theorem model_is_total : True := trivial
+open Spec
+
+/-- **Decode**: accepted ⇔ the specification accepts; then the receiver holds a valid representation of precisely
+that point; otherwise the error is `invalidPointEncoding` and the receiver is returned unchanged. -/
+theorem decode_spec (e : Pt L4) (data : Bytes) (hb : IsBytes data) :
+    (Spec.decode data = none → Hand.ElementL.decode e data = (some .invalidPointEncoding, e)) ∧
+    (∀ pt, Spec.decode data = some pt →
+        (Hand.ElementL.decode e data).1 = none ∧ PtValid limbLawful (Hand.ElementL.decode e data).2 ∧
+        affPt (Hand.ElementL.decode e data).2 = pt) := _root_.decode_spec e data hb
+
+/-- acceptance is an *iff* -/
+theorem decode_accepts_iff (e : Pt L4) (data : Bytes) (hb : IsBytes data) :
+    (Hand.ElementL.decode e data).1 = none ↔ ∃ pt, Spec.decode data = some pt := by
+  obtain ⟨hrej, hacc⟩ := _root_.decode_spec e data hb
+  constructor
+  · intro h
+    cases hs : Spec.decode data with
+    | none => rw [hrej hs] at h; exact absurd h (by simp)
+    | some pt => exact ⟨pt, rfl⟩
+  · rintro ⟨pt, hpt⟩; exact (hacc pt hpt).1
+
+/-- the form-specific decoders accept exactly their own form -/
+theorem decodeCompressed_spec (e : Pt L4) (pre : Nat) (rest : Bytes) (hb : IsBytes rest) (hl : rest.length = 32) :
+    (Spec.decodeCompressed (pre :: rest) = none →
+        Hand.ElementL.decodeCompressed e (pre :: rest) = (some .invalidPointEncoding, e)) ∧
+    (∀ pt, Spec.decodeCompressed (pre :: rest) = some pt →
+        (Hand.ElementL.decodeCompressed e (pre :: rest)).1 = none ∧
+        PtValid limbLawful (Hand.ElementL.decodeCompressed e (pre :: rest)).2 ∧
+        affPt (Hand.ElementL.decodeCompressed e (pre :: rest)).2 = pt) :=
+  _root_.decodeCompressed_spec e pre rest hb hl
+
+theorem decodeCompressed_wrong_length (e : Pt L4) (data : Bytes) (h : data.length ≠ 33) :
+    Hand.ElementL.decodeCompressed e data = (some .invalidPointEncoding, e) := by
+  unfold Hand.ElementL.decodeCompressed; rw [if_pos h]
+
+theorem decodeUncompressed_spec (e : Pt L4) (pre : Nat) (rest : Bytes) (hb : IsBytes rest) (hl : rest.length = 64) :
+    (Spec.decodeUncompressed (pre :: rest) = none →
+        Hand.ElementL.decodeUncompressed e (pre :: rest) = (some .invalidPointEncoding, e)) ∧
+    (∀ pt, Spec.decodeUncompressed (pre :: rest) = some pt →
+        (Hand.ElementL.decodeUncompressed e (pre :: rest)).1 = none ∧
+        PtValid limbLawful (Hand.ElementL.decodeUncompressed e (pre :: rest)).2 ∧
+        affPt (Hand.ElementL.decodeUncompressed e (pre :: rest)).2 = pt) :=
+  _root_.decodeUncompressed_spec e pre rest hb hl
+
+theorem decodeUncompressed_wrong_length (e : Pt L4) (data : Bytes) (h : data.length ≠ 65) :
+    Hand.ElementL.decodeUncompressed e data = (some .invalidPointEncoding, e) := by
+  unfold Hand.ElementL.decodeUncompressed; rw [if_pos h]
+
+theorem decodeCoordinates_spec (e : Pt L4) (xb yb : Bytes) (hx : IsBytes xb) (hy : IsBytes yb)
+    (lx : xb.length = 32) (ly : yb.length = 32) :
+    (Spec.decodeCoordinates xb yb = none →
+        Hand.ElementL.decodeCoordinates e xb yb = (some .invalidPointEncoding, e)) ∧
+    (∀ pt, Spec.decodeCoordinates xb yb = some pt →
+        (Hand.ElementL.decodeCoordinates e xb yb).1 = none ∧
+        PtValid limbLawful (Hand.ElementL.decodeCoordinates e xb yb).2 ∧
+        affPt (Hand.ElementL.decodeCoordinates e xb yb).2 = pt) :=
+  _root_.decodeCoordinates_spec e xb yb hx hy lx ly
+
+/-- hex: a string that is not valid hex is reported as `hexError` and the receiver is unchanged; otherwise `Decode` -/
+theorem decodeHex_spec (e : Pt L4) (h : String) :
+    (Spec.ofHex h = none → Hand.ElementL.decodeHex e h = (some .hexError, e)) ∧
+    (∀ b, Spec.ofHex h = some b → Hand.ElementL.decodeHex e h = Hand.ElementL.decode e b) := by
+  unfold Hand.ElementL.decodeHex
+  constructor
+  · intro hn; rw [hn]
+  · intro b hb; rw [hb]
+
+-- non-vacuity: the specification accepts the encoding of the base point, so the acceptance branch is inhabited
+example : Spec.decode (Spec.encodeCompressed Spec.G) = some Spec.G :=
+  spec_decode_compressed _ ⟨by decide, by decide, by
+    rw [← Nat.cast_pow, ← Nat.cast_pow]
+    have h7 : (7 : ZMod Spec.P) = ((7 : Nat) : ZMod Spec.P) := by simp
+    rw [h7, ← Nat.cast_add, ZMod.natCast_eq_natCast_iff']
+    decide⟩
+
 end C03
